@@ -546,4 +546,201 @@ theorem run_obj_pname (hT : DocTablesOK T) (hC : CfgOK C T) (x : Ectx) (K : List
     simp [stepFn, emitOfTerm, termPName, IriRes.toTerm, h]
   exact (run_of_scanFn (stk := K) s1).trans (run_of_scanFn (stk := K) s2)
 
+
+/-! ### literals -/
+
+theorem formatLit_cons (lex rest : List Nat) :
+    formatLiteralLexicalForm T false lex ++ rest = 0x22 :: (litBody T false lex ++ 0x22 :: rest) := by
+  simp [formatLiteralLexicalForm]
+
+theorem string_tok (hT : DocTablesOK T) (hC : CfgOK C T) (lex rest : List Nat) (hs : Scalars lex)
+    (hstop : lex = [] → EmptyStrStop e rest) :
+    C.P.string e (0x22 :: (litBody T false lex ++ 0x22 :: rest)) = .ok lex rest := by
+  rw [hC.prod]
+  simp only [Producers.real]
+  rw [← formatLit_cons]
+  exact C02.string_roundtrip T hT.tok e false lex hs rest hstop
+
+/-- a quoted string followed by something that is neither `@` nor `^^`: xsd:string -/
+theorem run_obj_string (hT : DocTablesOK T) (hC : CfgOK C T) (x : Ectx) (K : List Frame) (env : Env)
+    (ws lex : List Nat) (c : Nat) (r0 : List Nat) (hws : Lead ws) (hs : Scalars lex)
+    (hc1 : c ≠ 0x40) (hc2 : c ≠ 0x5e) (hc3 : c ≠ 0x22) :
+    Run C e (mk (⟨x, .object⟩ :: K) (ws ++ (formatLiteralLexicalForm T false lex ++ c :: r0)) env)
+      [mkStmt x (.lit lex xsdString none)] (mk K (c :: r0) env) := by
+  have hv : Vis C 0x22 := vis_ascii hC (by decide) (by decide) (by decide)
+  have htok := string_tok (e := e) hT hC lex (c :: r0) hs (fun _ => by simp [EmptyStrStop, hc3])
+  have s1 : scanFn C e ⟨x, .object⟩ (ws ++ (formatLiteralLexicalForm T false lex ++ c :: r0)) env =
+      .ok { emit := some (mkStmt x (.lit lex xsdString none)), inp := c :: r0, env := env } := by
+    rw [scanFn_lead ws hws, formatLit_cons, scanFn_vis hv]
+    simp [stepFn, stepObject, htok, stepLiteralTail, hc1, hc2]
+  exact run_of_scanFn (stk := K) s1
+
+/-- a quoted string with a language tag -/
+theorem run_obj_lang (hT : DocTablesOK T) (hC : CfgOK C T) (x : Ectx) (K : List Frame) (env : Env)
+    (ws lex tag rest : List Nat) (hws : Lead ws) (hs : Scalars lex) (ht : langOK tag = true) (hstop : LangStop e rest) :
+    Run C e (mk (⟨x, .object⟩ :: K) (ws ++ (formatLiteralLexicalForm T false lex ++ 0x40 :: (tag ++ rest))) env)
+      [mkStmt x (.lit lex rdfLangString (some tag))] (mk K rest env) := by
+  have hv : Vis C 0x22 := vis_ascii hC (by decide) (by decide) (by decide)
+  have htok := string_tok (e := e) hT hC lex (0x40 :: (tag ++ rest)) hs (fun _ => by simp [EmptyStrStop])
+  have hlang : C.P.langtag e (0x40 :: (tag ++ rest)) = .ok tag rest := by
+    rw [hC.prod]
+    simp only [Producers.real]
+    have := C02.langtag_roundtrip e tag rest ht hstop
+    simpa using this
+  have s1 : scanFn C e ⟨x, .object⟩ (ws ++ (formatLiteralLexicalForm T false lex ++ 0x40 :: (tag ++ rest))) env =
+      .ok { emit := some (mkStmt x (.lit lex rdfLangString (some tag))), inp := rest, env := env } := by
+    rw [scanFn_lead ws hws, formatLit_cons, scanFn_vis hv]
+    simp [stepFn, stepObject, htok, stepLiteralTail, hlang]
+  exact run_of_scanFn (stk := K) s1
+
+/-- a quoted string with `^^` and a datatype the decoder reads as `dt` -/
+theorem run_obj_typed (hT : DocTablesOK T) (hC : CfgOK C T) (x : Ectx) (K : List Frame) (env : Env)
+    (ws lex dtText dt rest : List Nat) (hws : Lead ws) (hs : Scalars lex)
+    (hdt : dt ≠ rdfLangString ∧ dt ≠ rdfDirLangString)
+    (h : ∃ c2 r2, dtText ++ rest = c2 :: r2 ∧
+      (if c2 = 0x3c then iriIRIREF C e env (c2 :: r2) else iriPName C e env (c2 :: r2)) = .ok dt rest) :
+    Run C e (mk (⟨x, .object⟩ :: K) (ws ++ (formatLiteralLexicalForm T false lex ++ 0x5e :: 0x5e :: (dtText ++ rest))) env)
+      [mkStmt x (.lit lex dt none)] (mk K rest env) := by
+  have hv : Vis C 0x22 := vis_ascii hC (by decide) (by decide) (by decide)
+  have htok := string_tok (e := e) hT hC lex (0x5e :: 0x5e :: (dtText ++ rest)) hs (fun _ => by simp [EmptyStrStop])
+  obtain ⟨c2, r2, h0, hd⟩ := h
+  rw [h0] at htok
+  have s1 : scanFn C e ⟨x, .object⟩ (ws ++ (formatLiteralLexicalForm T false lex ++ 0x5e :: 0x5e :: (dtText ++ rest))) env =
+      .ok { emit := some (mkStmt x (.lit lex dt none)), inp := rest, env := env } := by
+    rw [scanFn_lead ws hws, formatLit_cons, scanFn_vis hv, h0]
+    simp [stepFn, stepObject, htok, stepLiteralTail, hd, hdt.1, hdt.2]
+  exact run_of_scanFn (stk := K) s1
+
+
+/-! ### bare numeric and boolean literals -/
+
+theorem spanDigits_pos : ∀ (l : List Nat), (spanDigits l).1 > 0 → ∃ d l', l = d :: l' ∧ isDigit d = true
+  | [], h => by simp [spanDigits] at h
+  | c :: rest, h => by
+    unfold spanDigits at h
+    split at h
+    · next hd => exact ⟨c, rest, rfl, hd⟩
+    · simp at h
+
+/-- a bare token that starts with '.' continues with a digit (`.5`, never `.e1`) -/
+theorem bare_dot_digit (l dt : List Nat) (h : bareLiteralDatatype (0x2e :: l) = some dt) :
+    ∃ d l', l = d :: l' ∧ isDigit d = true := by
+  apply spanDigits_pos
+  unfold bareLiteralDatatype at h
+  have h1 : ¬ ((0x2e :: l) = asc "true" ∨ (0x2e :: l) = asc "false") := by
+    intro hh
+    rcases hh with hh | hh
+    · have : asc "true" = 0x74 :: asc "rue" := by decide
+      rw [this] at hh; injection hh with hh; cases hh
+    · have : asc "false" = 0x66 :: asc "alse" := by decide
+      rw [this] at hh; injection hh with hh; cases hh
+  rw [if_neg h1] at h
+  have h2 : dropSign (0x2e :: l) = 0x2e :: l := by simp [dropSign]
+  have h3 : spanDigits (0x2e :: l) = (0, 0x2e :: l) := by
+    unfold spanDigits
+    simp [isDigit, NQ.isDigit]
+  rw [h2, h3] at h
+  simp only [↓reduceIte] at h
+  -- now `h` speaks about `spanDigits l`
+  rcases hsd : spanDigits l with ⟨n, r'⟩
+  rw [hsd] at h
+  simp only at h
+  show n > 0
+  rcases Nat.eq_zero_or_pos n with hn0 | hpos
+  · subst hn0
+    exfalso
+    cases r' with
+    | nil => simp at h
+    | cons c r =>
+      simp only at h
+      split at h
+      · simp at h
+      · cases h
+  · exact hpos
+
+theorem numeric_head {lex rest : List Nat} {k : NumKind}
+    (h : produceNumericLiteral e (lex ++ rest) = .ok (k, lex) rest) :
+    ∃ c r, lex ++ rest = c :: r ∧ ((c = 0x2d ∨ c = 0x2b ∨ isDigit c = true) ∨ c = 0x2e) := by
+  cases hl : lex ++ rest with
+  | nil => rw [hl] at h; simp [produceNumericLiteral] at h
+  | cons c r =>
+    refine ⟨c, r, rfl, ?_⟩
+    rw [hl] at h
+    simp only [produceNumericLiteral] at h
+    by_cases h1 : c = 0x2d ∨ c = 0x2b ∨ isDigit c = true
+    · exact Or.inl h1
+    · rw [if_neg h1] at h
+      by_cases h2 : c = 0x2e
+      · exact Or.inr h2
+      · rw [if_neg h2] at h; cases h
+
+theorem run_obj_numeric (hC : CfgOK C T) (x : Ectx) (K : List Frame) (env : Env) (ws lex dt rest : List Nat)
+    (hws : Lead ws) (h : literalShorthand dt lex = true) (hdt : dt ≠ xsdBoolean) (hstop : NumStop e rest) :
+    Run C e (mk (⟨x, .object⟩ :: K) (ws ++ (lex ++ rest)) env) [mkStmt x (.lit lex dt none)] (mk K rest env) := by
+  have hb : bareLiteralDatatype lex = some dt := by simpa [literalShorthand] using h
+  obtain ⟨k, hk, hnum⟩ : ∃ k : NumKind, k.datatype = dt ∧ produceNumericLiteral e (lex ++ rest) = .ok (k, lex) rest := by
+    rcases C02.shorthand_sound e dt lex rest h hstop with ⟨_, k, hk, hnum⟩ | ⟨hbool, _⟩
+    · exact ⟨k, hk, hnum⟩
+    · exact absurd hbool hdt
+  obtain ⟨c, r, h0, hc⟩ := numeric_head hnum
+  have hnum' : C.P.numeric e (c :: r) = .ok (k, lex) rest := by
+    rw [hC.prod]; simp only [Producers.real]; rw [← h0]; exact hnum
+  have hvis : Vis C c := by
+    apply vis_ascii hC
+    all_goals (rcases hc with (rfl | rfl | hd) | rfl <;> first | decide | (simp [isDigit, NQ.isDigit] at hd; omega))
+  have s1 : scanFn C e ⟨x, .object⟩ (ws ++ (lex ++ rest)) env =
+      .ok { emit := some (mkStmt x (.lit lex dt none)), inp := rest, env := env } := by
+    rw [scanFn_lead ws hws, h0, scanFn_vis hvis]
+    rcases hc with (rfl | rfl | hd) | rfl
+    · simp [stepFn, stepObject, hnum', emitOfNumeric, hk]
+    · simp [stepFn, stepObject, hnum', emitOfNumeric, hk]
+    · have hd' : 0x30 ≤ c ∧ c ≤ 0x39 := by simpa [isDigit, NQ.isDigit] using hd
+      have n1 : c ≠ 0x3c := by omega
+      have n2 : c ≠ 0x5f := by omega
+      have n3 : c ≠ 0x28 := by omega
+      have n4 : c ≠ 0x5b := by omega
+      have n5 : c ≠ 0x22 := by omega
+      have n6 : c ≠ 0x27 := by omega
+      have n7 : c ≠ 0x2e := by omega
+      simp [stepFn, stepObject, n1, n2, n3, n4, n5, n6, n7, hd', hnum', emitOfNumeric, hk]
+    · -- '.': the next rune is a digit
+      cases lex with
+      | nil => simp [bareLiteralDatatype, asc, spanDigits, dropSign] at hb
+      | cons c' lex' =>
+        simp only [List.cons_append, List.cons.injEq] at h0
+        obtain ⟨rfl, rfl⟩ := h0
+        obtain ⟨d, l', rfl, hd⟩ := bare_dot_digit lex' dt hb
+        have hd' : 0x30 ≤ d ∧ d ≤ 0x39 := by simpa [isDigit, NQ.isDigit] using hd
+        have : ¬ (d < 0x30 ∨ d > 0x39) := by omega
+        have hnum'' : C.P.numeric e (0x2e :: d :: (l' ++ rest)) = .ok (k, 0x2e :: d :: l') rest := hnum'
+        simp [stepFn, stepObject, this, hnum'', emitOfNumeric, hk]
+  exact run_of_scanFn (stk := K) s1
+
+theorem run_obj_bool (hC : CfgOK C T) (x : Ectx) (K : List Frame) (env : Env) (ws lex rest : List Nat)
+    (hws : Lead ws) (h : literalShorthand xsdBoolean lex = true) :
+    Run C e (mk (⟨x, .object⟩ :: K) (ws ++ (lex ++ rest)) env) [mkStmt x (.lit lex xsdBoolean none)] (mk K rest env) := by
+  have hb : bareLiteralDatatype lex = some xsdBoolean := by simpa [literalShorthand] using h
+  have hcases := Proofs.C02Tok.boolean_shorthand e lex rest hb
+  have ht : asc "true" = 0x74 :: asc "rue" := by decide
+  have hf : asc "false" = 0x66 :: asc "alse" := by decide
+  rcases hcases with ⟨rfl, hs⟩ | ⟨rfl, hs⟩
+  · have hv : Vis C 0x74 := vis_ascii hC (by decide) (by decide) (by decide)
+    have hs' : C.P.boolean e (0x74 :: (asc "rue" ++ rest)) = .bool true rest := by
+      rw [hC.prod]; simp only [Producers.real]; rw [← List.cons_append, ← ht]; exact hs
+    have s1 : scanFn C e ⟨x, .object⟩ (ws ++ (asc "true" ++ rest)) env =
+        .ok { emit := some (mkStmt x (.lit (asc "true") xsdBoolean none)), inp := rest, env := env } := by
+      rw [scanFn_lead ws hws, ht, List.cons_append, scanFn_vis hv]
+      simp [stepFn, stepObject, hs']
+      rfl
+    exact run_of_scanFn (stk := K) s1
+  · have hv : Vis C 0x66 := vis_ascii hC (by decide) (by decide) (by decide)
+    have hs' : C.P.boolean e (0x66 :: (asc "alse" ++ rest)) = .bool false rest := by
+      rw [hC.prod]; simp only [Producers.real]; rw [← List.cons_append, ← hf]; exact hs
+    have s1 : scanFn C e ⟨x, .object⟩ (ws ++ (asc "false" ++ rest)) env =
+        .ok { emit := some (mkStmt x (.lit (asc "false") xsdBoolean none)), inp := rest, env := env } := by
+      rw [scanFn_lead ws hws, hf, List.cons_append, scanFn_vis hv]
+      simp [stepFn, stepObject, hs']
+      rfl
+    exact run_of_scanFn (stk := K) s1
+
 end RdfModel.Proofs.C02Doc
